@@ -111,7 +111,7 @@ pub fn c01_core_fileref_any_bytes() {
 
 // @bound relocation: the same 28 symbolic bytes at offset 0 and at offset 1 of a larger array give equal FontRef/table_data observations; unwind 6
 #[cfg_attr(kani, kani::proof)]
-#[cfg_attr(kani, kani::unwind(6))]
+#[cfg_attr(kani, kani::unwind(30))]
 pub fn c01_reloc_fontref() {
     let a: [u8; 28] = kani::any();
     let mut b = [0u8; 30];
